@@ -1,5 +1,5 @@
-use vkit::Check;
+mod c13;
+use vkit::{Check, Level};
 fn main() {
-    let checks: &[Check] = &[];
-    vkit::main(checks);
+    vkit::main(&[Check { id: "C13", level: Level::Exploration, run: c13::run }]);
 }
